@@ -440,6 +440,12 @@ func runC15(t failer, c c15Case) c15Result {
 	return res
 }
 
+// chanUM stands in for a document loader: what is put on its channel is what it "publishes".
+type chanUM struct{ ch chan config.ServerConfig }
+
+func (u *chanUM) Unmarshal(b []byte) error         { return nil }
+func (u *chanUM) Config() chan config.ServerConfig { return u.ch }
+
 // checkC15Published: decode documents through the real loaders with a consumer in between, then
 // verify that what was published still is what it was.
 func runC15Published(t failer, c c15Case) {
@@ -463,6 +469,15 @@ func runC15Published(t failer, c c15Case) {
 		v := <-l.Config()
 		pubs = append(pubs, v)
 		snaps = append(snaps, snapshot(v))
+		// what was published is handed to a Loader of the reference stack, which builds its providers,
+		// authenticators and authorizers from it (three times: the third arrival means the first is built)
+		feed := &chanUM{ch: make(chan config.ServerConfig, 1)}
+		feed.ch <- v
+		if st, err := refsrv.New(nil, refsrv.Options{Logger: refsrv.NopLogger{}, Sink: refsrv.NopSink{}, UM: feed}); err == nil {
+			feed.ch <- v
+			feed.ch <- v
+			st.Close()
+		}
 		for i := range pubs {
 			if now := snapshot(pubs[i]); now != snaps[i] {
 				fail("published-config-written", "the configuration published for document %d (%s) changed when document %d (%s) was loaded", i, seq[i], len(pubs)-1, w)
